@@ -4,6 +4,7 @@ package meta_leaseset
 import (
 	"encoding/binary"
 	"sort"
+	"strings"
 	"time"
 
 	common "github.com/go-i2p/common/data"
@@ -204,10 +205,10 @@ func parseOfflineSignature(mls *MetaLeaseSet, data []byte) ([]byte, error) {
 // Returns remaining data after parsing or error if parsing fails.
 func parseOptionsMapping(mls *MetaLeaseSet, data []byte) ([]byte, error) {
 	mapping, rem, errs := common.ReadMapping(data)
-	if len(errs) > 0 {
+	if fatal := fatalMappingError(errs); fatal != nil {
 		err := oops.
 			Code("options_parse_failed").
-			Wrapf(errs[0], "failed to parse options mapping in MetaLeaseSet")
+			Wrapf(fatal, "failed to parse options mapping in MetaLeaseSet")
 		log.WithFields(logger.Fields{
 			"at":     "parseOptionsMapping",
 			"reason": "options mapping parse failed",
@@ -218,6 +219,20 @@ func parseOptionsMapping(mls *MetaLeaseSet, data []byte) ([]byte, error) {
 	log.Debug("Parsed options mapping")
 
 	return rem, nil
+}
+
+// fatalMappingError returns the first mapping error that is not the "data exists
+// beyond length of mapping" warning. ReadMapping emits that warning whenever the
+// mapping is followed by more data, which is always the case for a mapping embedded
+// in a MetaLeaseSet, so it must not fail the parse (LeaseSet2 filters it the same way).
+func fatalMappingError(errs []error) error {
+	for _, e := range errs {
+		if strings.Contains(e.Error(), "data exists beyond length of mapping") {
+			continue
+		}
+		return e
+	}
+	return nil
 }
 
 // parseEntries parses the MetaLeaseSet entries from the data.
@@ -345,11 +360,11 @@ func parseEntryFixedFields(entry *MetaLeaseSetEntry, data []byte) []byte {
 // parseEntryProperties reads the properties mapping for a MetaLeaseSet entry.
 func parseEntryProperties(entry *MetaLeaseSetEntry, entryIndex int, data []byte) ([]byte, error) {
 	properties, rem, errs := common.ReadMapping(data)
-	if len(errs) > 0 {
+	if fatal := fatalMappingError(errs); fatal != nil {
 		err := oops.
 			Code("entry_properties_parse_failed").
 			With("entry_index", entryIndex).
-			Wrapf(errs[0], "failed to parse properties for entry %d", entryIndex)
+			Wrapf(fatal, "failed to parse properties for entry %d", entryIndex)
 		log.WithFields(logger.Fields{
 			"at":          "parseSingleEntry",
 			"entry_index": entryIndex,
